@@ -43,6 +43,17 @@ def closer(step: int | None, at: float | None, then: tuple = ()):
     return inject
 
 
+class RefuseLater(cf.Plan):
+    """the first connection is accepted, the next n attempts are refused"""
+
+    def __init__(self, n: int):
+        super().__init__(refuse=0)
+        self.n = n
+
+    def open_result(self, k):
+        return "refuse" if 2 <= k <= 1 + self.n else "accept"
+
+
 class DrainPlan(cf.Plan):
     """from t = 2.9 s on every drain() suspends for half a second (back-pressure) and, if asked, then fails"""
 
@@ -134,6 +145,20 @@ def sessions(tier: str, seed: int, kinds=vloop.CLIENTS):
                     log, _ = cf.run(kind, plan, banner_close, status_cb=cb, t_end=80.0)
                     logs.append(log)
                     meta.append((kind, "close", "sorry-banner", cb, f"+{dt}s"))
+        # close() right after a link was lost with an error (reset, time-out), while the gateway refuses the reconnection:
+        # the lost link has nothing more to give, close() still has to finish its job
+        for fault in ("reset", "timeout", "eof"):
+            for dt in (0.001, 0.2, 0.6, 1.2):
+                for cb in ("ok", "slowD"):
+                    plan = RefuseLater(2)
+                    plan_fault = c13.fault_injector(kind, fault, None, 3.0, plan)
+
+                    def lost_then_close(s, state, plan_fault=plan_fault, dt=dt):
+                        plan_fault(s, state)
+                        closer(None, 3.0 + dt, ("connect",))(s, state)
+                    log, _ = cf.run(kind, plan, lost_then_close, status_cb=cb, t_end=40.0)
+                    logs.append(log)
+                    meta.append((kind, "close", f"after-{fault}", cb, f"+{dt}s"))
         # faults with raising / suspending callbacks: notification clauses
         for cb in ("raise", "slow"):
             for fault in ("eof", "write-error"):
